@@ -57,6 +57,91 @@ impl FungibleToken for Tok {
 impl FungibleBurnable for Tok {}
 
 /// plain generated accounts 0..NA
+/// The LIBRARY types of the flavours with every entry point they define routed through them
+/// (the example contracts expose no burn for votes / block-list and no mint for the lists):
+/// `FungibleVotes::{mint, burn, burn_from}`, `AllowList::{burn, burn_from}`,
+/// `BlockList::{burn, burn_from}` + the `ContractType` dispatch for the rest. Gates open.
+mod libflavors {
+    use soroban_sdk::{contract, contractimpl, Address, Env, MuxedAddress, String as SString};
+    use stellar_governance::votes::Votes;
+    use stellar_tokens::fungible::{
+        allowlist::AllowList, blocklist::BlockList, burnable::FungibleBurnable, votes::FungibleVotes, Base, FungibleToken,
+    };
+
+    #[contract]
+    pub struct VotesLib;
+    #[contractimpl]
+    impl VotesLib {
+        pub fn mint(e: &Env, to: Address, amount: i128) {
+            FungibleVotes::mint(e, &to, amount);
+        }
+    }
+    #[contractimpl(contracttrait)]
+    impl FungibleToken for VotesLib {
+        type ContractType = FungibleVotes;
+    }
+    #[contractimpl(contracttrait)]
+    impl Votes for VotesLib {}
+    #[contractimpl(contracttrait)]
+    impl FungibleBurnable for VotesLib {
+        fn burn(e: &Env, from: Address, amount: i128) {
+            FungibleVotes::burn(e, &from, amount);
+        }
+        fn burn_from(e: &Env, spender: Address, from: Address, amount: i128) {
+            FungibleVotes::burn_from(e, &spender, &from, amount);
+        }
+    }
+
+    #[contract]
+    pub struct AllowLib;
+    #[contractimpl]
+    impl AllowLib {
+        pub fn mint(e: &Env, to: Address, amount: i128) {
+            Base::mint(e, &to, amount);
+        }
+        pub fn allow(e: &Env, user: Address) {
+            AllowList::allow_user(e, &user);
+        }
+    }
+    #[contractimpl(contracttrait)]
+    impl FungibleToken for AllowLib {
+        type ContractType = AllowList;
+    }
+    #[contractimpl(contracttrait)]
+    impl FungibleBurnable for AllowLib {
+        fn burn(e: &Env, from: Address, amount: i128) {
+            AllowList::burn(e, &from, amount);
+        }
+        fn burn_from(e: &Env, spender: Address, from: Address, amount: i128) {
+            AllowList::burn_from(e, &spender, &from, amount);
+        }
+    }
+
+    #[contract]
+    pub struct BlockLib;
+    #[contractimpl]
+    impl BlockLib {
+        pub fn mint(e: &Env, to: Address, amount: i128) {
+            Base::mint(e, &to, amount);
+        }
+    }
+    #[contractimpl(contracttrait)]
+    impl FungibleToken for BlockLib {
+        type ContractType = BlockList;
+    }
+    #[contractimpl(contracttrait)]
+    impl FungibleBurnable for BlockLib {
+        fn burn(e: &Env, from: Address, amount: i128) {
+            BlockList::burn(e, &from, amount);
+        }
+        fn burn_from(e: &Env, spender: Address, from: Address, amount: i128) {
+            BlockList::burn_from(e, &spender, &from, amount);
+        }
+    }
+    #[allow(dead_code)]
+    fn _unused(_: MuxedAddress, _: SString) {}
+}
+
 const NA: usize = 5;
 /// the token contract's own address (never a signer)
 const SELF: usize = 5;
@@ -78,6 +163,9 @@ enum Flavor {
     Pausable,
     Votes,
     Capped,
+    VotesLib,
+    AllowLib,
+    BlockLib,
 }
 
 struct Sim {
@@ -132,11 +220,20 @@ impl Sim {
             }
             Flavor::Capped => e.register(ex_capped::ExampleContract, (i128::MAX,)),
             Flavor::Base => e.register(Tok, ()),
+            Flavor::VotesLib => e.register(libflavors::VotesLib, ()),
+            Flavor::AllowLib => e.register(libflavors::AllowLib, ()),
+            Flavor::BlockLib => e.register(libflavors::BlockLib, ()),
         };
         assert_eq!(u.push(tok.clone()), SELF);
         let other = e.register(Tok, ());
         assert_eq!(u.push(other), OTHER);
         let mut s = Sim { e, u, tok, now: start, min_temp, flavor, mint_auth, max_ttl };
+        if flavor == Flavor::AllowLib {
+            for i in 0..N {
+                let r = call(&s.e, &s.tok, "allow", args(&s.e, [v(&s.e, s.u.a(i))]), &[]);
+                assert!(r.is_some(), "allow failed");
+            }
+        }
         if flavor == Flavor::AllowList {
             for i in 0..N {
                 let r = call(&s.e, &s.tok, "allow_user", args(&s.e, [v(&s.e, s.u.a(i)), v(&s.e, s.u.a(0))]), &[s.u.a(0)]);
@@ -154,7 +251,7 @@ impl Sim {
     }
     fn supports(&self, kind: &str) -> bool {
         match self.flavor {
-            Flavor::Base | Flavor::Pausable => true,
+            Flavor::Base | Flavor::Pausable | Flavor::VotesLib | Flavor::AllowLib | Flavor::BlockLib => true,
             Flavor::AllowList => kind != "mint",
             Flavor::BlockList => !matches!(kind, "mint" | "burn" | "burn_from"),
             Flavor::Votes | Flavor::Capped => !matches!(kind, "burn" | "burn_from"),
@@ -375,6 +472,31 @@ fn gen_auth(rng: &mut Rng, kind: &str, a: &[usize], auth_focus: bool, mint_auth:
         r.sort();
         r.dedup();
         r
+    }
+}
+
+/// every entry point of the LIBRARY flavour types, including the burns the examples do not expose:
+/// allowance-based burns need a live, sufficient allowance and spend exactly the amount
+fn scenario_lib_flavors(t: &mut Trace) {
+    for flavor in [Flavor::VotesLib, Flavor::AllowLib, Flavor::BlockLib] {
+        seq(t, &format!("directed library flavour min_temp=1 start=100 flavor={:?}", flavor));
+        let mut s = Sim::new_flavor(t, flavor, 1, 100, 0);
+        s.exec(t, "mint", &[0], 1000, 0, &[]);
+        s.exec(t, "transfer", &[0, 1], 250, 0, &[0]);
+        s.exec(t, "burn_from", &[2, 0], 10, 0, &[2]);          // no allowance at all
+        s.exec(t, "approve", &[0, 2], 400, 150, &[0]);
+        s.exec(t, "transfer_from", &[2, 0, 3], 100, 0, &[2]);
+        s.exec(t, "burn_from", &[2, 0], 120, 0, &[2]);
+        s.exec(t, "burn_from", &[2, 0], 120, 0, &[0]);         // the owner signs, not the spender
+        s.exec(t, "burn_from", &[2, 0], 181, 0, &[2]);         // one more than the allowance left
+        s.exec(t, "burn_from", &[2, 0], 180, 0, &[2]);
+        s.exec(t, "burn_from", &[2, 0], 1, 0, &[2]);           // allowance used up
+        s.exec(t, "burn", &[1], 50, 0, &[1]);
+        s.exec(t, "burn", &[1], 50, 0, &[0]);
+        s.exec(t, "approve", &[1, 3], 30, 110, &[1]);
+        s.advance(t, 11);
+        s.exec(t, "burn_from", &[3, 1], 30, 0, &[3]);          // expired
+        s.exec(t, "transfer_from", &[3, 1, 0], 1, 0, &[3]);
     }
 }
 
@@ -675,6 +797,7 @@ fn main() {
     // `--no-directed`: generated sequences only (used to test the generator against mutants)
     if !std::env::args().any(|a| a == "--no-directed") {
         scenario_directed(&mut t);
+        scenario_lib_flavors(&mut t);
     }
     for k in 0..nseq {
         let min_temp = if rng.chance(50) { 1 } else { 16 };
@@ -682,7 +805,8 @@ fn main() {
         // every third sequence runs one of the real example contracts (compiled from the
         // tree with the tree's macros) with its gates open: it must obey C02 exactly like Base
         let flavor = if k % 3 == 2 {
-            *rng.pick(&[Flavor::AllowList, Flavor::BlockList, Flavor::Pausable, Flavor::Votes, Flavor::Capped])
+            *rng.pick(&[Flavor::AllowList, Flavor::BlockList, Flavor::Pausable, Flavor::Votes, Flavor::Capped,
+                        Flavor::VotesLib, Flavor::AllowLib, Flavor::BlockLib])
         } else {
             Flavor::Base
         };
